@@ -434,6 +434,15 @@ func (w *World) deploymentScaleStep(v depView) (string, bool) {
 	if activeOld == 0 {
 		return set(v.newRS, v.replicas)
 	}
+	// scaling event with a single active ReplicaSet (the new one still at 0): the controller's
+	// scale() sets it to the Deployment's size before any rolling step (FindActiveOrLatest)
+	if activeOld == 1 && pointer.Int32Deref(v.newRS.Spec.Replicas, 0) == 0 {
+		for _, rs := range v.oldRSs {
+			if n := int(pointer.Int32Deref(rs.Spec.Replicas, 0)); n > 0 && n != v.replicas {
+				return set(rs, v.replicas)
+			}
+		}
+	}
 	if d.Spec.Strategy.Type == appsv1.RecreateDeploymentStrategyType {
 		for _, rs := range v.oldRSs {
 			if s, ok := set(rs, 0); ok {
